@@ -80,6 +80,8 @@ def _recording_obligations(ctx, repo, of, ro, body):
     parts = _tree_at_set(v) if v is not None else None
     ok0["position"] = (parts is not None and parts[1] == c(0) and P0 is not None
                        and parts[2] == P0 and parts[0] == prev.get(("position", sp_)))
+    cnt0 = [val for loc, val, _, _ in ro.stores if loc[0] == "s" and loc[2] == c("while_i")]
+    ok0["counter"] = cnt0 == [c(0)]
     ctx.ob("C20.R2", of, "row 0 of every history holds the start: the start position and "
                          "the training / validation loss evaluated at it (the best-iteration "
                          "search may pick index 0)", all(ok0.values()),
